@@ -124,6 +124,15 @@ CHECKS["C11"] = dict(
          "representation conversions are parameters (sampled incl. degenerate/mixed batches).",
     design="5 C11", technique="Lean 4 proof (matrix algebra, adjugate) + executable rigid-motion model correspondence")
 
+CHECKS["C03"] = dict(
+    text="Theorems: scattering each image group's tasks back to flatnonzero(ids == key) puts the task of "
+         "molecule i at slot i for EVERY arrangement of image ids (interleaved or not), while plain per-image "
+         "concatenation is only a permutation; zip pairs task i with keyword row i; replace keeps exactly the "
+         "referenced images; auto-allocated image ids are fresh; derived loaders / groups are the table "
+         "operations of C12. polars/numpy/dask primitives are parameters; histories on a real BatchLoader "
+         "with source-identifying tomograms are compared with the model.",
+    design="5 C03", technique="Lean 4 proof (scatter correctness for all key sequences) + history correspondence")
+
 NOT_YET = {}
 
 
